@@ -230,14 +230,15 @@ Section Sim.
         * intros ? [].
       + apply post_ret; auto. constructor.
     - (* for *)
-      change (ddecl (EFor x e0 cls y body)) with (@nil name) in *. unfold eval_for_expr. cbn [eval_for].
-      eapply post_bind with (RA := vrels) (D1 := []) (D2 := []); try apply incl_refl.
+      change (ddecl (EFor x e0 cls y body)) with (ddecl e0) in *. unfold eval_for_expr. cbn [eval_for].
+      eapply post_bind with (RA := vrels) (D1 := ddecl e0) (D2 := []); try apply incl_refl.
+      2:{ intros ? []. }
       2:{ intros st2 st2' acc acc' E2 K2 S2 Ag2 Ra. apply post_ret; auto.
           destruct y; constructor; auto. }
       eapply post_bind with (D1 := ddecl e0) (D2 := []).
-      + eapply use_rec; eauto. rewrite H0. apply incl_refl.
-      + rewrite H0. apply incl_refl.
+      + eapply use_rec; eauto. apply incl_refl.
       + apply incl_refl.
+      + intros ? [].
       + intros st1 st1' v v' E K S1 Ag1 Rv.
         assert (PR1 := pre_after n0 cur0 FV resl mutl Hcur0 _ _ _ e0 _ _ _ _ _ _ PR E K S1 Ag1).
         assert (Zb : In x (for_budget x cls body)) by (left; auto).
